@@ -1631,6 +1631,67 @@ def f_non_utf8():
     return _script("C12_non_utf8.py")
 
 
+@finding("C13/no-yield/queue-backlog", "C13")
+def f_consumer_no_yield():
+    """a backlog of queued frames (built up while one callback waited) was delivered by the queue consumer without ever suspending: a
+    heartbeat task got one turn while 100 000 frames were delivered"""
+    return _script("C13_consumer_no_yield.py")
+
+
+@finding("C13/no-recovery/stale-receive-loop-shuts-new-link", "C13")
+def f_stale_loop_shuts_new_link():
+    """a send fails, its fault path shuts the link and reports DISCONNECTED; the status callback (or the application) connects again at once; the
+    receive loop of the OLD link then sees the end of its stream and shut `self.writer` — by now the NEW link — and reported a fault for it"""
+    import nmea2000.ioclient as io_
+
+    class W(_FakeWriter):
+        def __init__(self, reader):
+            super().__init__()
+            self.reader, self.fail = reader, False
+
+        def write(self, b):
+            if self.fail or self.closed:
+                raise ConnectionResetError("reset")
+            super().write(b)
+
+        def close(self):
+            if not self.closed and not self.reader.at_eof():
+                self.reader.feed_eof()           # as with a real transport: shutting the link ends its stream
+            super().close()
+
+    async def main():
+        links = []
+
+        async def fake_open(host, port):
+            rd = asyncio.StreamReader()
+            w = W(rd)
+            links.append(w)
+            return rd, w
+        io_.asyncio.open_connection = fake_open
+        c = io_.YachtDevicesNmea2000Gateway("h", 1)
+        log = []
+
+        async def st(s):
+            log.append(s.name)
+            if s.name == "DISCONNECTED" and len(links) == 1:
+                await c.connect()                # "on disconnect, reconnect" written by the user
+            if s.name == "CONNECTED" and len(links) == 2:
+                await asyncio.sleep(0.05)        # … and a status callback that takes a moment: the old receive loop runs meanwhile
+        c.set_status_callback(st)
+        await c.connect()
+        await asyncio.sleep(0.01)            # the receive task is reading from the first link
+        links[0].fail = True
+        from nmea2000.message import NMEA2000Message, NMEA2000Field
+        await c.send(NMEA2000Message(PGN=59904, id="isoRequest", priority=6, source=1, destination=255, fields=[NMEA2000Field(id="pgn", value=60928, raw_value=60928)]))
+        await asyncio.sleep(0.2)
+        res = (list(log), len(links), links[1].closed if len(links) > 1 else None, c.state.name)
+        await c.close()
+        return res
+    log, n, second_shut, state = _with_real_open(main)
+    return n == 2 and second_shut is False and state == "CONNECTED" and log == ["CONNECTED", "DISCONNECTED", "CONNECTED"], \
+        f"status log {log}; links opened {n}; the new link was shut: {second_shut}; state {state}"
+
+
 def run(keys=None):
     out = {}
     for k, (prop, fn) in FINDINGS.items():
